@@ -971,6 +971,31 @@ def probes(ck, exe):
     scaled2 = {"head": "0 -1 2 1", "ops": sc_ops + ["M 1"]}
     cases.append(scaled)
     cases.append(scaled2)
+    # single-index edits AFTER a floating-point solve with persistent scaling in SYNCMODE_AUTO: the real LP is stored scaled, the
+    # entered numbers are user-space numbers; every value old * 2^k is tried so that the entered number also hits whatever the
+    # solver stores internally for that bound / side (a comparison of an entered with a stored number would then be fooled)
+    post = []
+    sc_lp = ["rAC %s %s %s 0" % (d1, d1, dy(512)), "rAC %s %s %s 0" % (d1, dy(2), dy(64)), "rAC %s %s %s 0" % (dy(3), d0, dy(4)),
+             "rAR %s %s 3 0 %s 1 %s 2 %s" % (d1, dy(4096), dy(1024), dy(2), dy(0.25)), "rAR %s %s 2 0 %s 1 %s" % (dy(2), dy(96), d1, dy(3)),
+             "rAR %s %s 2 1 %s 2 %s" % (dy(0.5), dy(8), dy(1.0 / 1024), dy(1.0 / 64))]
+    for (kind, idx, old, other) in (("W", 0, 1.0, 512.0), ("U", 0, 512.0, 1.0), ("W", 1, 2.0, 64.0), ("U", 1, 64.0, 2.0), ("L", 0, 1.0, 4096.0),
+                                    ("R", 0, 4096.0, 1.0), ("L", 2, 0.5, 8.0), ("R", 2, 8.0, 0.5)):
+        for iface in ("r", "q"):
+            ops = list(sc_lp) + ["OPT 0"]
+            want = []
+            # every power of two times the old value that keeps lower <= upper / lhs <= rhs (the other side is not touched)
+            if kind in ("W", "L"):
+                ks = [k for k in range(-12, 13) if k != 0 and old * 2.0 ** k <= other] + [0]
+            else:
+                ks = [k for k in range(-12, 13) if k != 0 and old * 2.0 ** k >= other] + [0]
+            for k in ks:
+                v = old * 2.0 ** k
+                tok = dy(v) if iface == "r" else "%d/%d" % Fraction(v).as_integer_ratio()
+                ops.append("%s%s %d %s" % (iface, kind, idx, tok))
+                want.append((len(ops), kind, idx, Fraction(v)))
+            c = {"head": "1 -1 2 1", "ops": ops, "post": want}
+            post.append(c)
+            cases.append(c)
     base_p = os.path.join(vlib.BUILD, "run", "C07.%d.probe.cases" % os.getpid())
     out = ""
     for c in cases:
@@ -987,6 +1012,19 @@ def probes(ck, exe):
             if o.mode is None:
                 continue
             ck.evaluated(("probe", c["ops"][j - 1] if j else "init"))
+            if "post" in c:
+                for (jj, kind, idx, v) in c["post"]:
+                    if jj != j or o.Q is None:
+                        continue
+                    fld = {"W": "lo", "U": "up", "L": "lhs", "R": "rhs"}[kind]
+                    rv, qv = getattr(o.R, fld)[idx], getattr(o.Q, fld)[idx]
+                    ck.count("probe:scaled-edit:%s" % c["ops"][j - 1][:2])
+                    if Fraction(rv) != v or Fraction(qv) != v:
+                        ck.violation("scaled-edit-not-stored:%s" % c["ops"][j - 1][:2],
+                                     "after a floating-point solve with persistent scaling in SYNCMODE_AUTO, %s entered the value %s but the real LP reports %s and "
+                                     "the rational LP %s for that %s" % (c["ops"][j - 1], v, rv, qv, fld),
+                                     {"head": c["head"], "ops": c["ops"][:j], "implementation": line[:3000]})
+                continue
             if c is scaled or c is scaled2:
                 if j == len(c["ops"]) and o.Q is not None:
                     f = exact_copy_failures(o)
